@@ -850,9 +850,28 @@ pub fn oracle_main(args: &[String]) {
     println!("STAT checks={} disagree={}", nchecks, ndis);
 }
 
+/// the single-entry document of one table entry (by its description) as a script on stdout
+pub fn doc_main(args: &[String]) {
+    let names = Names::load(&args[0]);
+    let sp = Spec::build();
+    let v: u32 = args[2].parse().unwrap();
+    let populate = args.get(3).map(|x| x == "populate").unwrap_or(false);
+    let Some(ei) = sp.entries.iter().position(|e| e.desc() == args[1] || e.desc().starts_with(&args[1])) else {
+        eprintln!("no such entry");
+        std::process::exit(2)
+    };
+    let mut rng = SplitMix64(1);
+    let d = build(&names, &sp, &Plan { multi: false, entries: vec![(ei, v)] }, &mut rng, populate);
+    print!("{}", d.script(0, &[]));
+    for sk in &d.skipped {
+        println!("# skipped {}", sk);
+    }
+}
+
 pub fn main(args: &[String]) {
     match args[0].as_str() {
         "stats" => stats_main(&args[1..]),
+        "doc" => doc_main(&args[1..]),
         "gen" => gen_main(&args[1..]),
         "sweep" => sweep_main(&args[1..]),
         "oracle" => oracle_main(&args[1..]),
